@@ -2392,7 +2392,10 @@ static program_t *epilog ()
 #endif
     )
     {
-      save_binary (prog, &mem_block[A_INCLUDES], &mem_block[A_PATCH]);
+      /* the binary stores the line number tables with their 16 bit size (file_info[0]): bigger tables would be
+       * written truncated and every later line lookup in the reloaded program would read outside them */
+      if (lnsz <= (int) USHRT_MAX)
+        save_binary (prog, &mem_block[A_INCLUDES], &mem_block[A_PATCH]);
     }
 #endif
 
